@@ -54,7 +54,25 @@ def rule_init(ctx):
             if cf is not None and ((pol and cf in tests) or (not pol and cf in positive)):
                 guard_txt = (txt, pol, o)
     rets = [o for o in outs if o.kind == "return"]
+    nested_ok = None
     if guard_txt is None:
+        # the validation may live in a helper that raises or returns: accepted when the helper is called on every path to the
+        # store (its call is not under an undecided condition)
+        for o in it.nested_raises:
+            if o.conds:
+                txt, pol = o.conds[-1]
+                cf = it.cond_forms.get(txt)
+                if cf is not None and ((pol and cf in tests) or (not pol and cf in positive)):
+                    recs = [r for r in it.calls if r.depth == 0 and r.callee and r.callee.startswith("opticomlib.") and not r.conds
+                            and getattr(r.node, "lineno", 10**9) < store.lineno]
+                    if recs:
+                        nested_ok = o
+    if guard_txt is None and nested_ok is not None:
+        if nested_ok.exc != "ValueError":
+            ctx.violation("C15.1", fi, nested_ok.node, "binary_sequence.__init__: 0/1 membership guard", f"raises {nested_ok.exc}, documented ValueError")
+        else:
+            ctx.holds("C15.1", fi, nested_ok.node, "binary_sequence.__init__: 0/1 membership guard", "elements other than 0/1 -> ValueError in a validation helper called before the store on every path")
+    elif guard_txt is None:
         ctx.violation("C15.1", fi, fi.node, "binary_sequence.__init__: 0/1 membership guard", "no guard rejecting elements other than 0/1")
     elif guard_txt[2].exc != "ValueError":
         ctx.violation("C15.1", fi, guard_txt[2].node, "binary_sequence.__init__: 0/1 membership guard", f"raises {guard_txt[2].exc}, documented ValueError")
